@@ -33,6 +33,8 @@ class Packed(BaseType, Generic[T]):
             data = stream.read()
             length = len(data)
             count = length // cls.size
+            if length != count * cls.size:
+                raise EOFError(f"Read {length} bytes, but expected a multiple of {cls.size}")
         else:
             length = cls.size * count
             data = stream.read(length)
